@@ -100,10 +100,54 @@ def check(c):
         elif 'TASK_OUTPUT_FAILED' in txt:
             fin.append(n)
     c.floor('C11.builder', '"succeeded or failed" parts', len(fin), 2)
+    # ... and *whenever* success or failure is optional (and there is no user
+    # expression) one of them is added: the sites together are reached under
+    # exactly (succeeded optional or failed optional) -- a truth table over
+    # (user expression, any required output, succeeded opt., failed opt.)
+    from rules._shared import reach_table
+    atoms = {'completion': 'completion', 'required': 'required',
+             'so': opt('succeeded'), 'fo': opt('failed')}
+    tabs = [reach_table(c, n, atoms, ge) for n in fin]
+    if any(t is None for t in tabs):
+        c.ob('C11.builder', f'{ge.fq} :: "succeeded or failed" is added '
+             'whenever success or failure is optional', False,
+             c.where(ge.node, ge), 'a site depends on something other than '
+             'the four atoms')
+    elif tabs:
+        wrong = []
+        for combo in tabs[0]:
+            comp, _req, so_, fo_ = combo
+            want = (not comp) and (so_ or fo_)
+            got = any(t[combo] for t in tabs)
+            if want != got:
+                wrong.append(dict(zip(atoms, combo)))
+        c.ob('C11.builder', f'{ge.fq} :: "succeeded or failed" is added '
+             'whenever success or failure is optional', not wrong,
+             c.where(ge.node, ge), f'differs for {wrong[:3]}: with nothing '
+             'required and only failure optional the expression is empty and '
+             'any final status counts as complete' if wrong else '')
     for n in fin:
         c.guard('C11.builder', n, [AnyOf(opt('succeeded'), opt('failed'))],
                 ge, what='only when success/failure is optional;')
     c.exactly('C11.builder', '"submit_failed" part', len(sf), 1)
+    for sites, a1, a2, what in ((sf, 'submitted', 'submit-failed',
+                                 'submit_failed'),
+                                (ex, 'expired', 'expired', 'expired')):
+        at = {'completion': 'completion', 'a': opt(a1)}
+        if a2 != a1:
+            at['b'] = opt(a2)
+        tb = [reach_table(c, n, at, ge) for n in sites]
+        bad = None
+        if any(t is None for t in tb) or not tb:
+            bad = 'site depends on something else'
+        else:
+            for combo in tb[0]:
+                comp = combo[0]
+                if ((not comp) and any(combo[1:])) != any(
+                        t[combo] for t in tb):
+                    bad = str(dict(zip(at, combo)))
+        c.ob('C11.builder', f'{ge.fq} :: "{what}" is added whenever it is '
+             'optional', bad is None, c.where(ge.node, ge), bad or '')
     for n in sf:
         c.guard('C11.builder', n, [AnyOf(opt('submitted'),
                                          opt('submit-failed'))], ge)
@@ -161,6 +205,14 @@ def check(c):
 
 
 VARIANTS = [
+    ('fail-optional-only-gets-no-part', 'cylc/flow/task_outputs.py',
+     '''        else:
+            parts.append(
+                f'{TASK_OUTPUT_SUCCEEDED} or {TASK_OUTPUT_FAILED}'
+            )''', '''        elif tdef.outputs[TASK_OUTPUT_SUCCEEDED][1] is False:
+            parts.append(
+                f'{TASK_OUTPUT_SUCCEEDED} or {TASK_OUTPUT_FAILED}'
+            )''', 'C11.builder'),
     ('remove-incomplete', 'cylc/flow/task_pool.py',
      '        if not itask.state.outputs.is_complete():\n            # Keep incomplete',
      '        if not itask.state.outputs.is_complete() and output:\n            # Keep incomplete',
